@@ -72,6 +72,8 @@ def check(run):
     run.functions = len(oa.methods)
     _accessors(run, prog, oa, getters)
     _rate_classes(run, prog)
+    from ..cachekey import check_caches
+    check_caches(run, [m for k, m in prog.modules.items() if k.startswith('cherab.openadas') and not k.endswith('#pxd')], 'C07-K')
 
 
 def _raise_set(getter, mi):
